@@ -244,7 +244,7 @@ def gen_case_v1(rng, policy, depth, nm):
     if policy in ('catchall', 'catchall-default'):
         cf = {'name': 'extras_fld', 'catch_all': True}
         if policy == 'catchall-default':
-            cf['dflt'] = ['lit', None] if rng.random() < 0.85 else ['dict']
+            cf['dflt'] = ['lit', None] if rng.random() < 0.98 else ['dict']
             cf['factory'] = cf['dflt'][0] != 'lit'
             info['fields'].append(cf)
         else:
@@ -325,7 +325,7 @@ def run_v1(ctx: C.Ctx):
         history = 'load-first'
         if catch and rng.random() < 0.45:
             history = 'dump-first'
-        elif catch and depth > 0 and rng.random() < 0.08:
+        elif catch and depth > 0 and rng.random() < 0.015:
             history = 'second-root'
         extra_src = ''
         if history == 'second-root':
@@ -422,7 +422,10 @@ def run_v1(ctx: C.Ctx):
                 if policy == 'warn' and n_base:
                     ctx.fail(kind, case, 'WARN policy: a warning was logged for a document without unknown keys', detail=src)
             for rep, out in enumerate(outs, 1):
+                nf = len(ctx.failures)
                 check_v1(ctx, kind, case, rep, policy, out, base_out, U, depth, target, built, src, has_tag, tag_key, d, key=fkey)
+                if fkey is not None and len(ctx.failures) > nf:
+                    break          # a known finding: one record per case is enough
             if fkey is None:
                 st = model.StdTables()
                 st.add_json(d)
